@@ -9,6 +9,7 @@ mod lalr_ref;
 mod loader;
 mod pipeline;
 mod props;
+mod rx;
 #[macro_use]
 mod util;
 
@@ -67,6 +68,7 @@ fn main() {
         "C10" => props::trans::C10,
         "C11" => props::trans::C11,
         "C12" => props::trans::C12,
+        "C13" => props::c13::C13,
         "C31" => props::small::C31,
         "C32" => props::small::C32,
     );
